@@ -66,7 +66,7 @@ func (p *Prog) satisfied(s *Sym, facts []Atom, req CallReq, depth int, res *satR
 			continue
 		}
 		name := calleeName(c.Common())
-		if name == req.Callee {
+		if name == req.Callee || (req.Callee == "bytes.Equal" && wholeValueEquality[name]) {
 			why := ""
 			if req.Check != nil {
 				why = req.Check(s.callTerm(c))
@@ -253,4 +253,92 @@ func (p *Prog) returnTermWith(fn *ssa.Function, params ...*Term) *Term {
 // call (its error, if any, having been branched on is not required here).
 func (s *Sym) factsHaveCallSuccessAny(later, earlier interface{ Block() *ssa.BasicBlock }) bool {
 	return earlier.Block().Dominates(later.Block()) || earlier.Block() == later.Block() || true
+}
+
+// wholeValueEquality: calls that compare two byte strings as whole values
+// (length and content); a succeeded one is as good as bytes.Equal == true.
+var wholeValueEquality = map[string]bool{
+	"bytes.Equal": true, "crypto/subtle.ConstantTimeCompare": true, "crypto/hmac.Equal": true, "bytes.Compare": true,
+}
+
+// SAtom is a branch fact together with the evaluator of its function
+// (parameters bound to the caller's argument terms when the fact was imported
+// from a callee).
+type SAtom struct {
+	Atom
+	S *Sym
+}
+
+func (a SAtom) key() string {
+	return fmt.Sprintf("%d/%v/%s", a.Kind, a.Pol, a.S.Of(a.V).String())
+}
+
+// expandFacts: the given facts plus, for every in-module call among them that
+// is known to have succeeded (bool true / nil error), the facts that hold on
+// every success return of the callee - so that a check moved into a small
+// named predicate or helper still counts where it is called.
+func (p *Prog) expandFacts(s *Sym, facts []Atom, depth int) []SAtom {
+	var out []SAtom
+	for _, a := range facts {
+		out = append(out, SAtom{a, s})
+		if depth >= 3 {
+			continue
+		}
+		c, ok, succ := callOfAtom(a)
+		if !ok || !succ {
+			continue
+		}
+		f := c.Call.StaticCallee()
+		if f == nil || !InModule(f) || f.Blocks == nil {
+			continue
+		}
+		rec := false
+		for _, g := range s.stack {
+			if g == f {
+				rec = true
+			}
+		}
+		if rec {
+			continue
+		}
+		ch := s.child(f)
+		for i, prm := range f.Params {
+			if i < len(c.Call.Args) {
+				ch.params[prm] = s.Of(c.Call.Args[i])
+			}
+		}
+		var common map[string]SAtom
+		n := 0
+		for _, rp := range ch.ff.RetPoints(verdictIndex(f)) {
+			if rp.Outcome == Fails {
+				continue
+			}
+			n++
+			cur := map[string]SAtom{}
+			for _, sa := range p.expandFacts(ch, rp.Facts, depth+1) {
+				cur[sa.key()] = sa
+			}
+			if common == nil {
+				common = cur
+				continue
+			}
+			for k := range common {
+				if _, ok := cur[k]; !ok {
+					delete(common, k)
+				}
+			}
+		}
+		if n == 0 {
+			continue
+		}
+		var keys []string
+		for k := range common {
+			keys = append(keys, k)
+		}
+		sort.Strings(keys)
+		for _, k := range keys {
+			out = append(out, common[k])
+		}
+	}
+	return out
 }
